@@ -85,18 +85,32 @@ def strip_comments(src):
     return "".join(out)
 
 
-def source_scan():
-    """forbidden tokens in the Lean sources, comments stripped"""
-    hits = []
-    for root, _dirs, files in os.walk(LEAN):
-        if ".lake" in root:
+def import_closure(modules):
+    """source files (relative to lean/) in the transitive import closure of the given modules"""
+    seen, todo = set(), list(modules)
+    while todo:
+        m = todo.pop()
+        if m in seen or not m.startswith("CassisModel"):
             continue
-        for f in files:
-            if f.endswith(".lean"):
-                p = os.path.join(root, f)
-                src = strip_comments(open(p, encoding="utf-8").read())
-                for m in FORBIDDEN.finditer(src):
-                    hits.append(f"{os.path.relpath(p, LEAN)}: {m.group(0).strip()}")
+        path = os.path.join(LEAN, *m.split(".")) + ".lean"
+        if not os.path.exists(path):
+            continue
+        seen.add(m)
+        for line in open(path, encoding="utf-8"):
+            mm = re.match(r"\s*import\s+(\S+)", line)
+            if mm:
+                todo.append(mm.group(1))
+    return sorted(seen)
+
+
+def source_scan(modules):
+    """forbidden tokens in the Lean sources the property's modules depend on, comments stripped"""
+    hits = []
+    for m in import_closure(modules):
+        p = os.path.join(LEAN, *m.split(".")) + ".lean"
+        src = strip_comments(open(p, encoding="utf-8").read())
+        for mt in FORBIDDEN.finditer(src):
+            hits.append(f"{os.path.relpath(p, LEAN)}: {mt.group(0).strip()}")
     return hits
 
 
@@ -155,7 +169,7 @@ class ProofGate:
             self.details.append("lake build of " + " ".join(self.modules) + " failed: " + out[-3000:])
             self.failed_theorems = list(self.theorems)
             return self
-        hits = source_scan()
+        hits = source_scan(self.modules)
         if hits:
             self.details.append("forbidden tokens in Lean sources: " + "; ".join(hits[:10]))
         ax, out = audit_axioms(self.prop, self.modules, self.theorems)
